@@ -394,11 +394,13 @@ afterR8:
 					if f.IsCmp && f.Op.String() == "!=" && strings.HasSuffix(f.L.String(), ".expiration") && f.R.String() == "-1" {
 						hasExp = true
 					}
-					if f.IsCmp && f.Op.String() == ">" && strings.Contains(f.L.String(), "time.Now") && strings.HasSuffix(f.R.String(), ".expiration") {
+					// the expiry compared with the clock is the one stored in the score map for this entry —
+					// not a copy kept elsewhere (a queue of (ip, expiry) pairs goes stale when a ban is renewed)
+					if f.IsCmp && f.Op.String() == ">" && strings.Contains(f.L.String(), "time.Now") && strings.HasSuffix(f.R.String(), ".expiration") && strings.Contains(f.R.String(), "peerScore") {
 						expired = true
 					}
 				}
-				c.Require("C18.R9 sweep", FuncKey(start)+": delete(peerScore)", p.InstrPos(call), "an entry is forgotten exactly when it has an expiry and now > expiry (clean score afterwards)", hasExp && expired, fmt.Sprintf("hasExpiry=%v expired=%v", hasExp, expired))
+				c.Require("C18.R9 sweep", FuncKey(start)+": delete(peerScore)", p.InstrPos(call), "an entry is forgotten exactly when it has an expiry and now > the expiry stored for it in the score map (clean score afterwards)", hasExp && expired, fmt.Sprintf("hasExpiry=%v expired=%v", hasExp, expired))
 			}
 			c.MinInstances("C18.R9 sweep", n, 1)
 		}
